@@ -96,7 +96,7 @@ def run(tier, scratch, t0, replay=None):
     for p in corp:
         vtag = os.path.basename(os.path.dirname(p)).replace("bytecode_", "")
         items.append({"pyc": p, "label": "corpus/" + vtag + "/" + os.path.basename(p), "vtag": vtag})
-    batches = D.build_batches(scratch, sorted(K.available_interps()), tier, "C07", n_stdlib=3 if quick else 200, n_gen=4 if quick else 160, batch=40,
+    batches = D.build_batches(scratch, sorted(K.available_interps()), tier, "C07", n_stdlib=3 if quick else 80, n_gen=4 if quick else 60, batch=40,
                               with_corpus=False, gen_snippets=3 if quick else None,
                               focus=["frozenset", "shared_consts", "FLAG_REF", "backward_lines", "line_gaps", "int", "text", "closure"],
                               must_templates=["t_opcode_zoo", "t_opcode_zoo2", "t_set_of_bytes", "t_long_loop", "t_shared_frozenset", "t_shared_big_tuple", "t_backward_lines", "t_line_gaps",
@@ -111,7 +111,7 @@ def run(tier, scratch, t0, replay=None):
             res.inconclusive.append("compile %s: %s" % (K.vstr(b["v"]), err))
             continue
         for it in b["items"]:
-            if os.path.exists(it["pyc"]) and os.path.getsize(it["pyc"]) < (9000 if quick else 120000):
+            if os.path.exists(it["pyc"]) and os.path.getsize(it["pyc"]) < (9000 if quick else 40000):
                 items.append({"pyc": it["pyc"], "label": "fresh/%s/%s" % (K.vstr(b["v"]), os.path.basename(it["src"])),
                               "vtag": K.vstr(b["v"])})
     chunks = list(K.chunks(items, 9 if quick else 40))
